@@ -70,28 +70,12 @@ Proof.
   rewrite combine_length, map_length. lia.
 Qed.
 
-(* ---------- one call ---------- *)
-Definition of_ures (r : ures) : out := match r with URet rs => ORet rs | UPanic => OPanicUser end.
-
-Lemma call_forward d st m a s vals g :
-  find_method (methods d) m = Some s -> pack s a = Some vals -> func_of st m = Some g ->
-  step d st (Call m a) = (upd st m (Some g, log_of st m ++ [mkrec s vals]), of_ures (g vals), [EInvoke m vals]).
+Lemma seqb_sym a b : seqb a b = seqb b a.
 Proof.
-  intros Hf Hp Hg. unfold step. rewrite Hf, Hp, Hg.
-  destruct (stub_impl (mopts d)); destruct (g vals); reflexivity.
+  destruct (seqb a b) eqn:E; symmetry.
+  - apply seqb_eq in E; subst. apply seqb_refl.
+  - apply seqb_neq in E. apply seqb_neq. congruence.
 Qed.
-
-Lemma call_nil_panics d st m a s vals :
-  find_method (methods d) m = Some s -> pack s a = Some vals -> func_of st m = None ->
-  stub_impl (mopts d) = false ->
-  step d st (Call m a) = (st, OPanicNil (nil_msg d m), []).
-Proof. intros Hf Hp Hg Hs. unfold step. now rewrite Hf, Hp, Hg, Hs. Qed.
-
-Lemma call_stub d st m a s vals :
-  find_method (methods d) m = Some s -> pack s a = Some vals -> func_of st m = None ->
-  stub_impl (mopts d) = true ->
-  step d st (Call m a) = (upd st m (None, log_of st m ++ [mkrec s vals]), ORet (repeat vzero (mnres s)), []).
-Proof. intros Hf Hp Hg Hs. unfold step. now rewrite Hf, Hp, Hg, Hs. Qed.
 
 Lemma nil_msg_names_func d m :
   exists pre post, nil_msg d m = pre ++ (m ++ B "Func") ++ post /\
@@ -99,39 +83,6 @@ Lemma nil_msg_names_func d m :
                    post = B ": method is nil but " ++ iface_name d ++ B "." ++ m ++ B " was just called".
 Proof. unfold nil_msg. eexists _, _. split; [|split; reflexivity]. now rewrite <- !app_assoc. Qed.
 
-(* nothing but a call with a non-nil function invokes anything, and then exactly once *)
-Lemma events_shape d st o :
-  let '(_, x, ev) := step d st o in
-  match o with
-  | Call m a =>
-    match func_of st m, find_method (methods d) m with
-    | Some g, Some s => match pack s a with
-                        | Some vals => ev = [EInvoke m vals] /\ x = of_ures (g vals)
-                        | None => ev = [] /\ x = OIllTyped
-                        end
-    | _, _ => ev = []
-    end
-  | _ => ev = []
-  end.
-Proof.
-  destruct o as [m a|m|m| |m f]; simpl.
-  - destruct (find_method (methods d) m) as [s|] eqn:Hf; [|destruct (func_of st m); reflexivity].
-    destruct (pack s a) as [vals|] eqn:Hp; [|destruct (func_of st m); auto].
-    destruct (func_of st m) as [g|] eqn:Hg.
-    + destruct (stub_impl (mopts d)); destruct (g vals); auto.
-    + destruct (stub_impl (mopts d)); reflexivity.
-  - destruct (find_method (methods d) m); reflexivity.
-  - destruct (with_resets (mopts d)); [destruct (find_method (methods d) m)|]; reflexivity.
-  - destruct (with_resets (mopts d)); reflexivity.
-  - destruct (find_method (methods d) m); reflexivity.
-Qed.
-
-(* reading the calls changes nothing *)
-Lemma calls_pure d st m s :
-  find_method (methods d) m = Some s -> step d st (Calls m) = (st, ORecords (log_of st m), []).
-Proof. intros H. unfold step. now rewrite H. Qed.
-
-(* ---------- resets ---------- *)
 Lemma clear_all_spec l st m :
   fold_left (fun s sg => clear s (mname sg)) l st m =
   if smem m (map mname l) then (func_of st m, []) else st m.
@@ -142,56 +93,122 @@ Proof.
   - apply seqb_neq in E. unfold clear, func_of. rewrite upd_other by exact E. reflexivity.
 Qed.
 
-Lemma reset_one_isolated d st m s :
-  with_resets (mopts d) = true -> find_method (methods d) m = Some s ->
-  let '(st', x, ev) := step d st (ResetM m) in
-  x = OUnit /\ ev = [] /\ log_of st' m = [] /\
-  (forall m', func_of st' m' = func_of st m') /\
-  (forall m', m' <> m -> log_of st' m' = log_of st m').
+Lemma filter_map_app {A B} (f : A -> option B) a b : filter_map f (a ++ b) = filter_map f a ++ filter_map f b.
+Proof. induction a as [|x a IH]; simpl; [reflexivity|]. destruct (f x); simpl; now rewrite IH. Qed.
+
+(* ---------- soundness of every operation w.r.t. the event semantics ---------- *)
+Definition of_ures (r : ures) : out := match r with URet rs => ORet rs | UPanic => OPanicUser end.
+
+(* the logs move as the events say, the functions do not move at all *)
+Definition Sound (d : mock) (st : state) (r : result) : Prop :=
+  forall m0, log_of (fst (fst r)) m0 = fold_left (eff d m0) (snd r) (log_of st m0) /\
+             func_of (fst (fst r)) m0 = func_of st m0.
+
+Lemma do_calls_sound d st m : Sound d st (do_calls d st m).
+Proof. unfold do_calls. destruct (find_method (methods d) m) as [s|]; intros m0; simpl; auto. Qed.
+
+Lemma clear_log st m m0 : log_of (clear st m) m0 = if seqb m m0 then [] else log_of st m0.
 Proof.
-  intros Hw Hf. unfold step. rewrite Hw, Hf. unfold clear, log_of, func_of.
-  repeat split.
-  - now rewrite upd_same.
-  - intros m'. destruct (str_dec m' m) as [->|N]; [now rewrite upd_same | now rewrite upd_other].
-  - intros m' N. now rewrite upd_other.
+  unfold clear, log_of. destruct (seqb m m0) eqn:E.
+  - apply seqb_eq in E; subst. now rewrite upd_same.
+  - apply seqb_neq in E. rewrite upd_other by congruence. reflexivity.
+Qed.
+Lemma clear_func st m m0 : func_of (clear st m) m0 = func_of st m0.
+Proof.
+  unfold clear, func_of. destruct (str_dec m0 m) as [->|N]; [now rewrite upd_same | now rewrite upd_other].
 Qed.
 
-Lemma reset_all_isolated d st :
-  with_resets (mopts d) = true ->
-  let '(st', x, ev) := step d st ResetAll in
-  x = OUnit /\ ev = [] /\
-  (forall m, In m (map mname (methods d)) -> log_of st' m = []) /\
-  (forall m, func_of st' m = func_of st m) /\
-  (forall m, ~ In m (map mname (methods d)) -> log_of st' m = log_of st m).
+Lemma do_reset_sound d st m : Sound d st (do_reset d st m).
 Proof.
-  intros Hw. unfold step. rewrite Hw. unfold log_of, func_of. repeat split.
-  - intros m Hm. rewrite clear_all_spec. apply smem_In in Hm. now rewrite Hm.
-  - intros m. rewrite clear_all_spec. now destruct (smem _ _).
-  - intros m Hm. rewrite clear_all_spec. apply smem_false in Hm. now rewrite Hm.
+  unfold do_reset. destruct (with_resets (mopts d)); [|intros m0; simpl; auto].
+  destruct (find_method (methods d) m) as [s|]; intros m0; simpl; auto.
+  split; [apply clear_log | apply clear_func].
 Qed.
 
-Lemma no_resets_without_option d st o :
-  with_resets (mopts d) = false -> (o = ResetAll \/ exists m, o = ResetM m) ->
-  step d st o = (st, ONoMethod, []).
-Proof. intros Hw [->|[m ->]]; unfold step; now rewrite Hw. Qed.
+Lemma fold_clears d m0 l acc :
+  fold_left (eff d m0) (map (fun sg => EClear (mname sg)) l) acc = if smem m0 (map mname l) then [] else acc.
+Proof.
+  revert acc; induction l as [|x l IH]; intros acc; simpl; [reflexivity|].
+  rewrite IH, (seqb_sym m0 (mname x)). destruct (seqb (mname x) m0); [now destruct (smem _ _) | reflexivity].
+Qed.
 
-(* ---------- what one step does to one method's entry ---------- *)
-Lemma step_func d st o m :
-  func_of (fst (fst (step d st o))) m = last_func d m (func_of st m) [o].
+Lemma do_reset_all_sound d st : Sound d st (do_reset_all d st).
+Proof.
+  unfold do_reset_all. destruct (with_resets (mopts d)); [|intros m0; simpl; auto].
+  intros m0; simpl. rewrite fold_clears. unfold log_of, func_of. rewrite clear_all_spec.
+  destruct (smem m0 (map mname (methods d))); auto.
+Qed.
+
+Lemma nstep_sound call d :
+  (forall st m a, Sound d st (call st m a)) -> forall st o, Sound d st (nstep call d st o).
+Proof.
+  intros H st [m|m a|m|]; simpl; [apply do_calls_sound | apply H | apply do_reset_sound | apply do_reset_all_sound].
+Qed.
+
+Lemma fold_eff_nested d m0 evs o x acc :
+  fold_left (eff d m0) (evs ++ [ENested o x]) acc = fold_left (eff d m0) evs acc.
+Proof. now rewrite fold_left_app. Qed.
+
+Lemma run_script_sound d ns :
+  (forall st o, Sound d st (ns st o)) ->
+  forall sc st0 st evs,
+    (forall m0, log_of st m0 = fold_left (eff d m0) evs (log_of st0 m0) /\ func_of st m0 = func_of st0 m0) ->
+    Sound d st0 (run_script ns sc st evs).
+Proof.
+  intros Hns sc. induction sc as [r|o k IH]; intros st0 st evs H.
+  - destruct r; exact H.
+  - simpl. pose proof (Hns st o) as S1. destruct (ns st o) as [[st1 x] ev1]. simpl in S1.
+    assert (A : forall m0, log_of st1 m0 = fold_left (eff d m0) (evs ++ ev1) (log_of st0 m0) /\ func_of st1 m0 = func_of st0 m0).
+    { intros m0. destruct (S1 m0) as [L F], (H m0) as [L0 F0]. simpl in L, F. rewrite fold_left_app, <- L0. split; congruence. }
+    assert (A' : forall m0, log_of st1 m0 = fold_left (eff d m0) (evs ++ ev1 ++ [ENested o x]) (log_of st0 m0) /\ func_of st1 m0 = func_of st0 m0).
+    { intros m0. rewrite app_assoc, fold_eff_nested. apply A. }
+    destruct x; try (apply IH; exact A'). exact A.
+Qed.
+
+Lemma rec_of_found d m s vals : find_method (methods d) m = Some s -> rec_of d m vals = mkrec s vals.
+Proof. unfold rec_of. now intros ->. Qed.
+
+Lemma callf_sound fuel d : forall st m a, Sound d st (callf fuel d st m a).
+Proof.
+  induction fuel as [|f IH]; intros st m a; [intros m0; simpl; auto|].
+  simpl. destruct (find_method (methods d) m) as [s|] eqn:Hm; [|intros m0; simpl; auto].
+  destruct (pack s a) as [vals|]; [|intros m0; simpl; auto].
+  assert (Entry : forall (fo : option ufunc) m0, fo = func_of st m ->
+            log_of (upd st m (fo, log_of st m ++ [mkrec s vals])) m0 = eff d m0 (log_of st m0) (ERecord m vals) /\
+            func_of (upd st m (fo, log_of st m ++ [mkrec s vals])) m0 = func_of st m0).
+  { intros fo m0 ->. unfold log_of, func_of, eff. destruct (seqb m m0) eqn:E.
+    - apply seqb_eq in E; subst m0. rewrite upd_same. simpl. now rewrite (rec_of_found d m s vals Hm).
+    - apply seqb_neq in E. rewrite upd_other by congruence. auto. }
+  destruct (func_of st m) as [g|] eqn:Hg.
+  - assert (R : Sound d st (run_script (nstep (callf f d) d) (g vals) (upd st m (Some g, log_of st m ++ [mkrec s vals])) [ERecord m vals; EInvoke m vals])).
+    { apply run_script_sound; [apply nstep_sound, IH|]. intros m0. simpl. now apply Entry. }
+    destruct (stub_impl (mopts d)); exact R.
+  - destruct (stub_impl (mopts d)); intros m0; simpl; [now apply Entry | auto].
+Qed.
+
+Lemma step_log fuel d st o m0 :
+  log_of (fst (fst (step fuel d st o))) m0 = fold_left (eff d m0) (snd (step fuel d st o)) (log_of st m0).
+Proof.
+  destruct o as [m a|m|m| |m f]; simpl.
+  - apply callf_sound.
+  - apply do_calls_sound.
+  - apply do_reset_sound.
+  - apply do_reset_all_sound.
+  - destruct (find_method (methods d) m); simpl; [|reflexivity].
+    unfold log_of. destruct (str_dec m0 m) as [->|N]; [now rewrite upd_same | now rewrite upd_other].
+Qed.
+
+Lemma last_func_cons d m cur o ops : last_func d m cur (o :: ops) = last_func d m (last_func d m cur [o]) ops.
+Proof. destruct o; simpl; try reflexivity. now destruct (_ && _). Qed.
+
+Lemma step_func fuel d st o m :
+  func_of (fst (fst (step fuel d st o))) m = last_func d m (func_of st m) [o].
 Proof.
   destruct o as [m' a|m'|m'| |m' f]; simpl.
-  - destruct (find_method (methods d) m') as [s|]; [|reflexivity].
-    destruct (pack s a) as [vals|]; [|reflexivity].
-    assert (K : forall (f : option ufunc) (l : list record), func_of st m' = f -> func_of (upd st m' (f, l)) m = func_of st m).
-    { intros f l E. unfold func_of in *. destruct (str_dec m m') as [->|N]; [now rewrite upd_same | now rewrite upd_other]. }
-    destruct (func_of st m') as [g|] eqn:Hg.
-    + destruct (stub_impl (mopts d)); destruct (g vals); simpl; now apply K.
-    + destruct (stub_impl (mopts d)); simpl; [now apply K | reflexivity].
-  - destruct (find_method (methods d) m'); reflexivity.
-  - destruct (with_resets (mopts d)); [|reflexivity]. destruct (find_method (methods d) m'); [|reflexivity].
-    simpl. unfold clear, func_of. destruct (str_dec m m') as [->|N]; [now rewrite upd_same | now rewrite upd_other].
-  - destruct (with_resets (mopts d)); [|reflexivity]. simpl. unfold func_of. rewrite clear_all_spec.
-    now destruct (smem _ _).
+  - apply callf_sound.
+  - apply do_calls_sound.
+  - apply do_reset_sound.
+  - apply do_reset_all_sound.
   - destruct (find_method (methods d) m') as [s|] eqn:Hf; simpl.
     + destruct (seqb m' m) eqn:E.
       * apply seqb_eq in E; subst. rewrite Hf. simpl. unfold func_of. now rewrite upd_same.
@@ -199,171 +216,296 @@ Proof.
     + destruct (seqb m' m) eqn:E; [|reflexivity]. apply seqb_eq in E; subst. now rewrite Hf.
 Qed.
 
-Lemma last_func_cons d m cur o ops : last_func d m cur (o :: ops) = last_func d m (last_func d m cur [o]) ops.
-Proof. destruct o; simpl; try reflexivity. now destruct (_ && _). Qed.
-
-Lemma func_final d st ops m : func_of (final d st ops) m = last_func d m (func_of st m) ops.
+Lemma func_final fuel d st ops m : func_of (final fuel d st ops) m = last_func d m (func_of st m) ops.
 Proof.
   revert st; induction ops as [|o ops IH]; intros st; simpl; [reflexivity|].
   rewrite IH, step_func. symmetry. apply last_func_cons.
 Qed.
 
-Lemma step_log d st o m s :
-  find_method (methods d) m = Some s ->
-  let '(st', x, ev) := step d st o in
-  log_of st' m = if resets d m o then []
-                 else log_of st m ++ map (mkrec s) (tuples d m [(o, x, ev)]).
-Proof.
-  intros Hm. unfold tuples, resets.
-  destruct o as [m' a|m'|m'| |m' f]; simpl; rewrite ?andb_false_r.
-  - destruct (find_method (methods d) m') as [s'|] eqn:Hf; [|simpl; now rewrite app_nil_r].
-    destruct (pack s' a) as [vals|] eqn:Hp; [|simpl; now rewrite app_nil_r].
-    assert (K : forall (f : option ufunc),
-               log_of (upd st m' (f, log_of st m' ++ [mkrec s' vals])) m =
-               log_of st m ++ map (mkrec s) (if seqb m' m then match pack s a with Some y => [y] | None => [] end else [])).
-    { intros f. unfold log_of. destruct (seqb m' m) eqn:E.
-      - apply seqb_eq in E; subst. rewrite upd_same. simpl. rewrite Hm in Hf. injection Hf as <-. now rewrite Hp.
-      - apply seqb_neq in E. rewrite upd_other by congruence. simpl. now rewrite app_nil_r. }
-    destruct (func_of st m') as [g|] eqn:Hg.
-    + destruct (stub_impl (mopts d)); destruct (g vals); simpl; rewrite K; rewrite Hm;
-        destruct (seqb m' m); try reflexivity; destruct (pack s a); reflexivity.
-    + destruct (stub_impl (mopts d)); simpl; [|now rewrite app_nil_r].
-      rewrite K, Hm. destruct (seqb m' m); try reflexivity; destruct (pack s a); reflexivity.
-  - destruct (find_method (methods d) m'); simpl; now rewrite app_nil_r.
-  - destruct (with_resets (mopts d)) eqn:Hw; simpl; [|now rewrite app_nil_r].
-    rewrite Hm, andb_true_r.
-    destruct (find_method (methods d) m') as [s'|] eqn:Hf.
-    + unfold clear, log_of. destruct (seqb m' m) eqn:E.
-      * apply seqb_eq in E; subst. now rewrite upd_same.
-      * apply seqb_neq in E. rewrite upd_other by congruence. simpl. now rewrite app_nil_r.
-    + destruct (seqb m' m) eqn:E; [|simpl; now rewrite app_nil_r].
-      apply seqb_eq in E; subst. congruence.
-  - destruct (with_resets (mopts d)) eqn:Hw; simpl; [|now rewrite app_nil_r].
-    unfold log_of. rewrite clear_all_spec.
-    apply find_method_name in Hm as [Hn Hin]. assert (I : In m (map mname (methods d))) by (subst; now apply in_map).
-    apply smem_In in I. now rewrite I.
-  - destruct (find_method (methods d) m') as [s'|]; simpl; [|now rewrite app_nil_r].
-    unfold log_of. destruct (str_dec m m') as [->|N]; [rewrite upd_same | rewrite upd_other by exact N]; simpl; now rewrite app_nil_r.
-Qed.
-
-Lemma final_app d st a b : final d st (a ++ b) = final d (final d st a) b.
+Lemma final_app fuel d st a b : final fuel d st (a ++ b) = final fuel d (final fuel d st a) b.
 Proof. revert st; induction a as [|o a IH]; intros st; simpl; [reflexivity | apply IH]. Qed.
-Lemma trace_app d st a b : trace d st (a ++ b) = trace d st a ++ trace d (final d st a) b.
+Lemma trace_app fuel d st a b : trace fuel d st (a ++ b) = trace fuel d st a ++ trace fuel d (final fuel d st a) b.
 Proof.
   revert st; induction a as [|o a IH]; intros st; simpl; [reflexivity|].
-  destruct (step d st o) as [[st' x] ev] eqn:E. simpl. now rewrite IH.
+  destruct (step fuel d st o) as [[st' x] ev] eqn:E. simpl. now rewrite IH.
 Qed.
-Lemma filter_map_app {A B} (f : A -> option B) a b : filter_map f (a ++ b) = filter_map f a ++ filter_map f b.
-Proof. induction a as [|x a IH]; simpl; [reflexivity|]. destruct (f x); simpl; now rewrite IH. Qed.
 
-(* no reset of m in the history: the list only grows, by the tuples of the calls, in call order *)
-Lemma log_grows d st ops m s :
-  find_method (methods d) m = Some s ->
-  forallb (fun o => negb (resets d m o)) ops = true ->
-  log_of (final d st ops) m = log_of st m ++ map (mkrec s) (tuples d m (trace d st ops)).
+(* refinement: after any history the records of m are what the events say *)
+Lemma final_log fuel d st ops m0 :
+  log_of (final fuel d st ops) m0 = fold_left (eff d m0) (all_events (trace fuel d st ops)) (log_of st m0).
 Proof.
-  intros Hm. revert st; induction ops as [|o ops IH]; intros st; simpl; [now rewrite app_nil_r|].
-  intros H. apply andb_true_iff in H as [Ho H].
-  pose proof (step_log d st o m s Hm) as L.
-  destruct (step d st o) as [[st' x] ev] eqn:E. simpl.
-  rewrite IH by exact H. apply negb_true_iff in Ho. rewrite Ho in L. rewrite L.
-  rewrite <- app_assoc, <- map_app. f_equal. f_equal. unfold tuples.
-  change ((o, x, ev) :: trace d st' ops) with ([(o, x, ev)] ++ trace d st' ops).
-  now rewrite filter_map_app.
+  revert st; induction ops as [|o ops IH]; intros st; simpl; [reflexivity|].
+  pose proof (step_log fuel d st o m0) as L. destruct (step fuel d st o) as [[st' x] ev]. simpl in *.
+  unfold all_events in *. simpl. rewrite fold_left_app, <- L. apply IH.
 Qed.
 
-Lemma reset_empties d st o m s :
-  find_method (methods d) m = Some s -> resets d m o = true -> log_of (fst (fst (step d st o))) m = [].
+Lemma fold_eff_no_clear d m evs acc :
+  forallb (fun e => negb (clears m e)) evs = true ->
+  fold_left (eff d m) evs acc = acc ++ map (rec_of d m) (tuples m evs).
 Proof.
-  intros Hm Hr. pose proof (step_log d st o m s Hm) as L.
-  destruct (step d st o) as [[st' x] ev]. simpl. now rewrite Hr in L.
+  revert acc; induction evs as [|e evs IH]; intros acc H; simpl; [now rewrite app_nil_r|].
+  simpl in H. apply andb_true_iff in H as [He H]. rewrite IH by exact H. unfold tuples. simpl.
+  destruct e as [m' vals|m'|m' vals|o x]; simpl in *; try reflexivity.
+  - destruct (seqb m' m); simpl; [now rewrite <- app_assoc | reflexivity].
+  - destruct (seqb m' m); [discriminate | reflexivity].
 Qed.
 
-(* the records are exactly the calls since the last reset, one per call, in call order *)
-Lemma log_order d st pre r post m s :
-  find_method (methods d) m = Some s ->
-  resets d m r = true ->
-  forallb (fun o => negb (resets d m o)) post = true ->
-  log_of (final d st (pre ++ r :: post)) m
-  = map (mkrec s) (tuples d m (trace d (final d st (pre ++ [r])) post)).
+Lemma fold_eff_after_clear d m e1 e2 acc :
+  fold_left (eff d m) (e1 ++ EClear m :: e2) acc = fold_left (eff d m) e2 [].
+Proof. rewrite fold_left_app. simpl. now rewrite seqb_refl. Qed.
+
+(* the records are exactly the calls (top-level or nested) recorded since the last clear of m, in order *)
+Lemma log_order fuel d st ops m e1 e2 :
+  all_events (trace fuel d st ops) = e1 ++ EClear m :: e2 ->
+  forallb (fun e => negb (clears m e)) e2 = true ->
+  log_of (final fuel d st ops) m = map (rec_of d m) (tuples m e2).
+Proof. intros E H. rewrite final_log, E, fold_eff_after_clear, fold_eff_no_clear by exact H. reflexivity. Qed.
+
+Lemma log_order_init fuel d ops m :
+  forallb (fun e => negb (clears m e)) (all_events (trace fuel d init ops)) = true ->
+  log_of (final fuel d init ops) m = map (rec_of d m) (tuples m (all_events (trace fuel d init ops))).
+Proof. intros H. rewrite final_log, fold_eff_no_clear by exact H. reflexivity. Qed.
+
+Lemma calls_pure fuel d st m s :
+  find_method (methods d) m = Some s -> step fuel d st (Calls m) = (st, ORecords (log_of st m), []).
+Proof. intros H. simpl. unfold do_calls. now rewrite H. Qed.
+
+(* ---------- one call ---------- *)
+Lemma call_entry f d st m a s vals g :
+  find_method (methods d) m = Some s -> pack s a = Some vals -> func_of st m = Some g ->
+  step (S f) d st (Call m a) =
+  run_script (nstep (callf f d) d) (g vals) (upd st m (Some g, log_of st m ++ [mkrec s vals])) [ERecord m vals; EInvoke m vals].
+Proof. intros Hf Hp Hg. simpl. rewrite Hf, Hp, Hg. now destruct (stub_impl (mopts d)). Qed.
+
+Lemma call_plain f d st m a s vals g r :
+  find_method (methods d) m = Some s -> pack s a = Some vals -> func_of st m = Some g -> g vals = SRet r ->
+  step (S f) d st (Call m a) = (upd st m (Some g, log_of st m ++ [mkrec s vals]), of_ures r, [ERecord m vals; EInvoke m vals]).
+Proof. intros Hf Hp Hg Hr. rewrite (call_entry f d st m a s vals g Hf Hp Hg), Hr. now destruct r. Qed.
+
+(* a user function that reads <M>Calls() of the method it is serving sees the record of the
+   running call as the last element, and goes on *)
+Lemma nested_calls_sees_running f d st m a s vals g k :
+  find_method (methods d) m = Some s -> pack s a = Some vals -> func_of st m = Some g ->
+  g vals = SDo (NCalls m) k ->
+  let st' := upd st m (Some g, log_of st m ++ [mkrec s vals]) in
+  let seen := ORecords (log_of st m ++ [mkrec s vals]) in
+  step (S f) d st (Call m a) =
+  run_script (nstep (callf f d) d) (k seen) st' [ERecord m vals; EInvoke m vals; ENested (NCalls m) seen].
 Proof.
-  intros Hm Hr Hp. replace (pre ++ r :: post) with ((pre ++ [r]) ++ post) by now rewrite <- app_assoc.
-  rewrite final_app, (log_grows d _ post m s Hm Hp).
-  rewrite (final_app d st pre [r]). simpl. now rewrite (reset_empties d _ r m s Hm Hr).
+  intros Hf Hp Hg Hk st' seen. rewrite (call_entry f d st m a s vals g Hf Hp Hg), Hk. simpl.
+  unfold do_calls. rewrite Hf. unfold st', seen, log_of. rewrite !upd_same. simpl. reflexivity.
 Qed.
 
-Lemma log_order_init d ops m s :
-  find_method (methods d) m = Some s ->
-  forallb (fun o => negb (resets d m o)) ops = true ->
-  log_of (final d init ops) m = map (mkrec s) (tuples d m (trace d init ops)).
-Proof. intros Hm Hp. now rewrite (log_grows d init ops m s Hm Hp). Qed.
+Lemma call_nil_panics f d st m a s vals :
+  find_method (methods d) m = Some s -> pack s a = Some vals -> func_of st m = None ->
+  stub_impl (mopts d) = false ->
+  step (S f) d st (Call m a) = (st, OPanicNil (nil_msg d m), []).
+Proof. intros Hf Hp Hg Hs. simpl. now rewrite Hf, Hp, Hg, Hs. Qed.
 
-(* a call is recorded iff it did not panic on the nil check: characterisation of [recorded] by the function in place *)
-Lemma recorded_iff d st m a s vals :
-  find_method (methods d) m = Some s -> pack s a = Some vals ->
-  let '(st', x, ev) := step d st (Call m a) in
-  recorded d m (Call m a, x, ev) =
-  match func_of st m, stub_impl (mopts d) with None, false => None | _, _ => Some vals end.
+Lemma call_stub f d st m a s vals :
+  find_method (methods d) m = Some s -> pack s a = Some vals -> func_of st m = None ->
+  stub_impl (mopts d) = true ->
+  step (S f) d st (Call m a) = (upd st m (None, log_of st m ++ [mkrec s vals]), ORet (repeat vzero (mnres s)), [ERecord m vals]).
+Proof. intros Hf Hp Hg Hs. simpl. now rewrite Hf, Hp, Hg, Hs. Qed.
+
+(* the outcome of a running user function is its own return or panic (or fuel exhaustion of a nested call) *)
+Lemma run_script_out ns sc st evs :
+  let x := snd (fst (run_script ns sc st evs)) in (exists rs, x = ORet rs) \/ x = OPanicUser \/ x = OOutOfFuel.
 Proof.
-  intros Hm Hp. unfold step. rewrite Hm, Hp.
-  destruct (func_of st m) as [g|]; destruct (stub_impl (mopts d)); simpl; try destruct (g vals); simpl;
-    rewrite ?seqb_refl, ?Hm, ?Hp; reflexivity.
+  revert st evs; induction sc as [r|o k IH]; intros st evs; simpl.
+  - destruct r; simpl; eauto.
+  - destruct (ns st o) as [[st1 x] ev1]. destruct x; try apply IH. simpl. auto.
 Qed.
 
-(* unknown methods / resets without the option / ill-typed calls change nothing *)
-Lemma rejected_no_change d st o :
-  let '(st', x, _) := step d st o in
+(* functions that never call into the mock: no fuel problem, and the only invocation is the one of the call *)
+Definition count_invokes (evs : list event) : nat := length (filter is_invoke evs).
+
+Lemma nstep_no_ncall call d st o :
+  (forall m a, o <> NCall m a) ->
+  let r := nstep call d st o in
+  snd (fst r) <> OOutOfFuel /\ count_invokes (snd r) = 0 /\ forall call', nstep call' d st o = r.
+Proof.
+  intros H. destruct o as [m|m a|m|]; simpl.
+  - unfold do_calls. destruct (find_method _ _); simpl; repeat split; discriminate.
+  - exfalso. eapply H; eauto.
+  - unfold do_reset. destruct (with_resets _); [destruct (find_method _ _)|]; simpl; repeat split; discriminate.
+  - unfold do_reset_all. destruct (with_resets _); simpl; repeat split; try discriminate.
+    unfold count_invokes. induction (methods d); simpl; auto.
+Qed.
+
+Lemma count_invokes_app a b : count_invokes (a ++ b) = count_invokes a + count_invokes b.
+Proof. unfold count_invokes. now rewrite filter_app, app_length. Qed.
+
+Lemma run_script_no_ncall call d sc :
+  no_ncall sc -> forall st evs,
+  let r := run_script (nstep call d) sc st evs in
+  ((exists rs, snd (fst r) = ORet rs) \/ snd (fst r) = OPanicUser) /\ count_invokes (snd r) = count_invokes evs.
+Proof.
+  induction 1 as [r|o k Ho Hk IH]; intros st evs; simpl.
+  - destruct r; simpl; eauto.
+  - destruct (nstep_no_ncall call d st o Ho) as (Hx & Hc & _).
+    destruct (nstep call d st o) as [[st1 x] ev1]. simpl in Hx, Hc.
+    assert (C : count_invokes (evs ++ ev1 ++ [ENested o x]) = count_invokes evs).
+    { rewrite !count_invokes_app, Hc. simpl. unfold count_invokes at 2. simpl. lia. }
+    destruct x; try congruence; (split; [apply IH | rewrite <- C; apply IH]).
+Qed.
+
+Lemma call_no_ncall f d st m a s vals g :
+  find_method (methods d) m = Some s -> pack s a = Some vals -> func_of st m = Some g ->
+  no_ncall (g vals) ->
+  let r := step (S f) d st (Call m a) in
+  ((exists rs, snd (fst r) = ORet rs) \/ snd (fst r) = OPanicUser) /\ count_invokes (snd r) = 1.
+Proof.
+  intros Hf Hp Hg Hn r. unfold r. rewrite (call_entry f d st m a s vals g Hf Hp Hg).
+  destruct (run_script_no_ncall (callf f d) d (g vals) Hn (upd st m (Some g, log_of st m ++ [mkrec s vals])) [ERecord m vals; EInvoke m vals]) as [A C].
+  split; [exact A | rewrite C; reflexivity].
+Qed.
+
+(* ---------- resets ---------- *)
+Lemma reset_one_isolated fuel d st m s :
+  with_resets (mopts d) = true -> find_method (methods d) m = Some s ->
+  let '(st', x, ev) := step fuel d st (ResetM m) in
+  x = OUnit /\ ev = [EClear m] /\ log_of st' m = [] /\
+  (forall m', func_of st' m' = func_of st m') /\
+  (forall m', m' <> m -> log_of st' m' = log_of st m').
+Proof.
+  intros Hw Hf. simpl. unfold do_reset. rewrite Hw, Hf. repeat split.
+  - rewrite clear_log. now rewrite seqb_refl.
+  - intros m'. apply clear_func.
+  - intros m' N. rewrite clear_log. assert (E : seqb m m' = false) by (apply seqb_neq; congruence). now rewrite E.
+Qed.
+
+Lemma reset_all_isolated fuel d st :
+  with_resets (mopts d) = true ->
+  let '(st', x, ev) := step fuel d st ResetAll in
+  x = OUnit /\ ev = map (fun sg => EClear (mname sg)) (methods d) /\
+  (forall m, In m (map mname (methods d)) -> log_of st' m = []) /\
+  (forall m, func_of st' m = func_of st m) /\
+  (forall m, ~ In m (map mname (methods d)) -> log_of st' m = log_of st m).
+Proof.
+  intros Hw. simpl. unfold do_reset_all. rewrite Hw. unfold log_of, func_of. repeat split.
+  - intros m Hm. rewrite clear_all_spec. apply smem_In in Hm. now rewrite Hm.
+  - intros m. rewrite clear_all_spec. now destruct (smem _ _).
+  - intros m Hm. rewrite clear_all_spec. apply smem_false in Hm. now rewrite Hm.
+Qed.
+
+Lemma no_resets_without_option fuel d st o :
+  with_resets (mopts d) = false -> (o = ResetAll \/ exists m, o = ResetM m) ->
+  step fuel d st o = (st, ONoMethod, []).
+Proof. intros Hw [->|[m ->]]; simpl; unfold do_reset, do_reset_all; now rewrite Hw. Qed.
+
+(* a nested reset is the same operation as a top-level one *)
+Lemma nested_reset_same call fuel d st :
+  (forall m, nstep call d st (NResetM m) = step fuel d st (ResetM m)) /\
+  nstep call d st NResetAll = step fuel d st ResetAll /\
+  (forall m, nstep call d st (NCalls m) = step fuel d st (Calls m)).
+Proof. repeat split. Qed.
+
+(* unknown methods / resets without the option / ill-typed calls / nil panics change nothing *)
+Lemma rejected_no_change fuel d st o :
+  let '(st', x, _) := step fuel d st o in
   (x = ONoMethod \/ x = OIllTyped \/ (exists msg, x = OPanicNil msg)) -> st' = st.
 Proof.
   destruct o as [m a|m|m| |m f]; simpl.
-  - destruct (find_method (methods d) m) as [s|]; [|auto]. destruct (pack s a) as [vals|]; [|auto].
-    destruct (func_of st m) as [g|]; destruct (stub_impl (mopts d)); try destruct (g vals); auto;
-      intros [H|[H|[? H]]]; discriminate.
-  - destruct (find_method (methods d) m); auto.
-  - destruct (with_resets (mopts d)); [|auto]. destruct (find_method (methods d) m); [|auto].
+  - destruct fuel as [|f]; simpl; [auto|].
+    destruct (find_method (methods d) m) as [s|]; [|auto]. destruct (pack s a) as [vals|]; [|auto].
+    destruct (func_of st m) as [g|].
+    + assert (R : forall r : result, ((exists rs, snd (fst r) = ORet rs) \/ snd (fst r) = OPanicUser \/ snd (fst r) = OOutOfFuel) ->
+                  let '(st', x, _) := r in (x = ONoMethod \/ x = OIllTyped \/ (exists msg, x = OPanicNil msg)) -> st' = st).
+      { intros [[st' x] ev]; simpl. intros [[rs ->]|[->| ->]] [H|[H|[? H]]]; discriminate. }
+      destruct (stub_impl (mopts d)); apply R, run_script_out.
+    + destruct (stub_impl (mopts d)); auto. intros [H|[H|[? H]]]; discriminate.
+  - unfold do_calls. destruct (find_method (methods d) m); auto.
+  - unfold do_reset. destruct (with_resets (mopts d)); [|auto]. destruct (find_method (methods d) m); [|auto].
     intros [H|[H|[? H]]]; discriminate.
-  - destruct (with_resets (mopts d)); [|auto]. intros [H|[H|[? H]]]; discriminate.
+  - unfold do_reset_all. destruct (with_resets (mopts d)); [|auto]. intros [H|[H|[? H]]]; discriminate.
   - destruct (find_method (methods d) m); [|auto]. intros [H|[H|[? H]]]; discriminate.
 Qed.
 
 (* ---------- statements over whole histories ---------- *)
-Lemma forward_once d st0 pre m a s vals g :
+Lemma forward_once fuel f d st0 pre m a s vals g :
   find_method (methods d) m = Some s -> pack s a = Some vals ->
   last_func d m (func_of st0 m) pre = Some g ->
-  let st := final d st0 pre in
-  step d st (Call m a) = (upd st m (Some g, log_of st m ++ [mkrec s vals]), of_ures (g vals), [EInvoke m vals]).
-Proof. intros Hm Hp Hl st. apply call_forward; auto. unfold st. now rewrite func_final. Qed.
+  let st := final fuel d st0 pre in
+  step (S f) d st (Call m a) =
+  run_script (nstep (callf f d) d) (g vals) (upd st m (Some g, log_of st m ++ [mkrec s vals])) [ERecord m vals; EInvoke m vals].
+Proof. intros Hm Hp Hl st. apply call_entry; auto. unfold st. now rewrite func_final. Qed.
 
-Lemma nil_panics_history d st0 pre m a s vals :
+Lemma forward_once_plain fuel f d st0 pre m a s vals g r :
+  find_method (methods d) m = Some s -> pack s a = Some vals ->
+  last_func d m (func_of st0 m) pre = Some g -> g vals = SRet r ->
+  let st := final fuel d st0 pre in
+  step (S f) d st (Call m a) = (upd st m (Some g, log_of st m ++ [mkrec s vals]), of_ures r, [ERecord m vals; EInvoke m vals]).
+Proof. intros Hm Hp Hl Hr st. apply call_plain; auto. unfold st. now rewrite func_final. Qed.
+
+Lemma nil_panics_history fuel f d st0 pre m a s vals :
   find_method (methods d) m = Some s -> pack s a = Some vals ->
   last_func d m (func_of st0 m) pre = None -> stub_impl (mopts d) = false ->
-  let st := final d st0 pre in
-  step d st (Call m a) = (st, OPanicNil (nil_msg d m), []).
-Proof. intros Hm Hp Hl Hs st. apply (call_nil_panics d st m a s vals); auto. unfold st. now rewrite func_final. Qed.
+  let st := final fuel d st0 pre in
+  step (S f) d st (Call m a) = (st, OPanicNil (nil_msg d m), []).
+Proof. intros Hm Hp Hl Hs st. apply (call_nil_panics f d st m a s vals); auto. unfold st. now rewrite func_final. Qed.
 
-Lemma stub_history d st0 pre m a s vals :
+Lemma stub_history fuel f d st0 pre m a s vals :
   find_method (methods d) m = Some s -> pack s a = Some vals ->
   last_func d m (func_of st0 m) pre = None -> stub_impl (mopts d) = true ->
-  let st := final d st0 pre in
-  step d st (Call m a) = (upd st m (None, log_of st m ++ [mkrec s vals]), ORet (repeat vzero (mnres s)), []).
+  let st := final fuel d st0 pre in
+  step (S f) d st (Call m a) = (upd st m (None, log_of st m ++ [mkrec s vals]), ORet (repeat vzero (mnres s)), [ERecord m vals]).
 Proof. intros Hm Hp Hl Hs st. apply call_stub; auto. unfold st. now rewrite func_final. Qed.
 
-Lemma calls_after_reset d st pre r post m s :
-  find_method (methods d) m = Some s -> resets d m r = true ->
-  forallb (fun o => negb (resets d m o)) post = true ->
-  snd (fst (step d (final d st (pre ++ r :: post)) (Calls m)))
-  = ORecords (map (mkrec s) (tuples d m (trace d (final d st (pre ++ [r])) post))).
-Proof. intros Hm Hr Hp. rewrite (calls_pure d _ m s Hm). simpl. now rewrite (log_order d st pre r post m s). Qed.
-
-Lemma calls_no_reset d ops m s :
+Lemma calls_after_clear fuel d st ops m s e1 e2 :
   find_method (methods d) m = Some s ->
-  forallb (fun o => negb (resets d m o)) ops = true ->
-  snd (fst (step d (final d init ops) (Calls m))) = ORecords (map (mkrec s) (tuples d m (trace d init ops))).
-Proof. intros Hm Hp. rewrite (calls_pure d _ m s Hm). simpl. now rewrite (log_order_init d ops m s). Qed.
+  all_events (trace fuel d st ops) = e1 ++ EClear m :: e2 ->
+  forallb (fun e => negb (clears m e)) e2 = true ->
+  snd (fst (step fuel d (final fuel d st ops) (Calls m))) = ORecords (map (mkrec s) (tuples m e2)).
+Proof.
+  intros Hm E H. rewrite (calls_pure fuel d _ m s Hm). simpl. rewrite (log_order fuel d st ops m e1 e2 E H).
+  f_equal. apply map_ext. intros v. now apply rec_of_found.
+Qed.
 
-(* one record per recorded call *)
-Lemma record_count d ops m s :
+Lemma calls_no_clear fuel d ops m s :
   find_method (methods d) m = Some s ->
-  forallb (fun o => negb (resets d m o)) ops = true ->
-  length (log_of (final d init ops) m) = length (tuples d m (trace d init ops)).
-Proof. intros Hm Hp. rewrite (log_order_init d ops m s Hm Hp). apply map_length. Qed.
+  forallb (fun e => negb (clears m e)) (all_events (trace fuel d init ops)) = true ->
+  snd (fst (step fuel d (final fuel d init ops) (Calls m))) = ORecords (map (mkrec s) (tuples m (all_events (trace fuel d init ops)))) /\
+  length (log_of (final fuel d init ops) m) = length (tuples m (all_events (trace fuel d init ops))).
+Proof.
+  intros Hm H. rewrite (calls_pure fuel d _ m s Hm). simpl. rewrite (log_order_init fuel d ops m H). split.
+  - f_equal. apply map_ext. intros v. now apply rec_of_found.
+  - apply map_length.
+Qed.
+
+(* where ERecord events come from: exactly the calls (top-level or nested) that got past the nil check.
+   For a top-level call: *)
+Lemma recorded_iff f d st m a s vals :
+  find_method (methods d) m = Some s -> pack s a = Some vals ->
+  let evs := snd (step (S f) d st (Call m a)) in
+  match func_of st m, stub_impl (mopts d) with
+  | None, false => evs = []
+  | _, _ => exists rest, evs = ERecord m vals :: rest
+  end.
+Proof.
+  intros Hm Hp. simpl. rewrite Hm, Hp.
+  assert (R : forall ns sc st' evs0, exists rest, snd (run_script ns sc st' (ERecord m vals :: evs0)) = ERecord m vals :: rest).
+  { intros ns sc. induction sc as [r|o k IH]; intros st' evs0; simpl.
+    - destruct r; simpl; eauto.
+    - destruct (ns st' o) as [[st1 x] ev1]. destruct x; try apply (IH _ st1 (evs0 ++ ev1 ++ [ENested o _])). simpl. eauto. }
+  destruct (func_of st m) as [g|]; destruct (stub_impl (mopts d)); simpl; eauto.
+Qed.
+
+(* nothing but a call whose <M>Func is set runs user code *)
+Lemma no_other_invocation fuel d st o :
+  let evs := snd (step fuel d st o) in
+  match o with
+  | Call m a => func_of st m = None -> count_invokes evs = 0
+  | _ => count_invokes evs = 0
+  end.
+Proof.
+  destruct o as [m a|m|m| |m f]; simpl.
+  - intros Hg. destruct fuel as [|f]; simpl; [reflexivity|].
+    destruct (find_method (methods d) m) as [s|]; [|reflexivity]. destruct (pack s a) as [vals|]; [|reflexivity].
+    rewrite Hg. destruct (stub_impl (mopts d)); reflexivity.
+  - unfold do_calls. destruct (find_method _ _); reflexivity.
+  - unfold do_reset. destruct (with_resets _); [destruct (find_method _ _)|]; reflexivity.
+  - unfold do_reset_all. destruct (with_resets _); [|reflexivity]. simpl.
+    unfold count_invokes. induction (methods d); simpl; auto.
+  - destruct (find_method _ _); reflexivity.
+Qed.
